@@ -243,21 +243,9 @@ func excludesByte(F *Formula, isX func(*Term) bool, b byte) bool {
 			if Entails(F, fNot(a)) {
 				return true
 			}
-		case (t.IsCall("regexp.MatchString") && len(t.Args) == 2 && isX(t.Args[1]) && t.Args[0].Op == "const") ||
-			(t.IsCall("(*regexp.Regexp).MatchString") && len(t.Args) == 2 && isX(t.Args[1]) && t.Args[0].IsCall("regexp.MustCompile") && t.Args[0].Args[0].Op == "const"):
-			pat := t.Args[0]
-			if pat.Op != "const" {
-				pat = pat.Args[0].Args[0]
-			}
-			var s string
-			if _, err := fmt.Sscanf(pat.Name, "%q", &s); err == nil && regexExcludesByte(s, b) && Entails(F, a) {
-				return true
-			}
-		case t.Op == "res" && len(t.Args) == 1 && t.Args[0].IsCall("regexp.MatchString"):
-			c := t.Args[0]
-			var s string
-			if len(c.Args) == 2 && isX(c.Args[1]) && c.Args[0].Op == "const" {
-				if _, err := fmt.Sscanf(c.Args[0].Name, "%q", &s); err == nil && t.Name == "#0" && regexExcludesByte(s, b) && Entails(F, a) {
+		case t.IsCall("(*regexp.Regexp).MatchString") || t.Op == "res" && len(t.Args) == 1 && t.Args[0].IsCall("regexp.MatchString"):
+			if pat, subj, ok := regexAtom(t); ok && isX(subj) {
+				if admits, err := LangAdmitsByte(LangSpec{Pat: pat, Lo: 0, Hi: -1}, b); err == nil && !admits && Entails(F, a) {
 					return true
 				}
 			}
